@@ -32,6 +32,17 @@ UNDEF = Undef()
 
 FEAS_TIMEOUT_MS = 2000
 
+_RAT = {}
+def rationalise(f):
+    """Real-mode reading of a double literal: if it is the nearest double to a rational p/q with q <= 1000
+    (the source wrote 1.0/6.0, 0.1, ...), take p/q; otherwise its exact binary value."""
+    r = _RAT.get(f)
+    if r is None:
+        ex = Fraction(f); sm = ex.limit_denominator(1000)
+        r = sm if float(sm) == f else ex
+        _RAT[f] = r
+    return r
+
 class Thrown(Exception):
     def __init__(s, exn): s.exn = exn
 class PathEnd(Exception): pass
@@ -237,7 +248,8 @@ class Interp:
         if k == 'int': return c.v & ((1 << s.resolve(c.ty).bits) - 1) if isinstance(s.resolve(c.ty), IntTy) else c.v
         if k == 'fp':
             if s.fpmode == 'float': return float(c.v)
-            return Fraction(c.v) if not (math.isinf(c.v) or math.isnan(c.v)) else c.v
+            if math.isinf(c.v) or math.isnan(c.v): return c.v
+            return rationalise(c.v)
         if k == 'null': return NULL
         if k == 'undef': return UNDEF
         if k == 'zeroinitializer':
